@@ -18,6 +18,9 @@ RULE = ("documents: hand-made small documents for every syntactic feature (edits
         "documents parsed WITHOUT locations containing structurally equal siblings (selections, arguments, directives, list values, object fields, definitions; edits at every occurrence, checked by identity; child list objects never edited in place); nested chains and ChainedVisitor subclasses with their own enter/leave (recording, skipping) at every position of an outer chain; DispatchingVisitor class hierarchies created per case and used in six orders (base then subclass, reverse, siblings, subclass of subclass); chains of 2..4 recorders where every member in turn raises SkipNode at every node kind (all calls on all other nodes compared); chains of 1..3 (plain and Dispatching) members configured through the constructor or by assigning / extending / re-ordering `visitors` afterwards (also from a subclass), sub-tree roots, wrong-kind replacements. "
         "non-trivial = distinct (document, visitor script) whose visit enters >= 3 nodes")
 ASSUMPTIONS = [
+    "a ChainedVisitor that is a member of another ChainedVisitor (and has no enter / leave of its own) is read as its members in place: `chained "
+    "visitors enter in order and leave in reverse` is asked of the LEAF visitors of the flattening, also when one of them raises SkipNode; a "
+    "ChainedVisitor subclass overriding enter / leave counts as one member",
     "SkipNode raised by a MEMBER of a ChainedVisitor - reading of the statement: `the skip signal suppresses only that node's children and ITS "
     "(the raiser's) leave call`; every other member still gets enter (in order) and leave (in reverse) for the node, i.e. stays balanced "
     "(`enter and then leave exactly once` for a visitor that does not skip); the children are visited by nobody. The code before fix C18-W8 aborts the "
@@ -544,6 +547,9 @@ def direct_oracle(ctx, text, kw, fail, exhaustive, big=False):
     for variant in (("plain", "tracing", "skipping") if exhaustive else (ctx.rng.choice(["plain", "tracing", "skipping"]),)):
         for position in ((0, 1, 2) if exhaustive else (ctx.rng.randrange(3),)):
             O.check_chain_nested(ctx, text, kw, fail, position, variant, ctx.rng.randrange(len(entered)))
+    for k in ((3, 4, 5) if exhaustive else (ctx.rng.choice([3, 4, 5]),)):
+        O.check_chain_nested_flat(ctx, text, kw, fail, k, ctx.rng.randrange(4), ctx.rng.randrange(len(entered)),
+                                  ctx.rng.choice(["plain", "subclass", "assigned"]), ctx.rng)
     O.check_dispatching(ctx, text, kw, fail)
     _register_later(ctx, text, kw, len(entered))
     if exhaustive or ctx.rng.random() < 0.3:
@@ -656,6 +662,8 @@ def replay(ctx, data):
                 seen.append("raises:RecursionError:depth:%s" % inp["deep"])
         elif "cross" in inp:
             O.check_cross_kind(ctx, text, kw, fail, [inp["pos"]], ctx.rng, all_kinds=True)
+        elif "nested_flat" in inp:
+            O.check_chain_nested_flat(ctx, text, kw, fail, inp["chain"], inp["nested_flat"], inp["pos"], inp["style"], ctx.rng)
         elif "nested" in inp:
             O.check_chain_nested(ctx, text, kw, fail, inp["position"], inp["nested"], inp["pos"])
         elif "skips" in inp:
